@@ -46,12 +46,20 @@ def specHandler : Handler → Req → Trace → Res
   | .respond id st, r, t => .stop (.done (t ++ [ev id r]) (some st))
   | .rewrite id p, r, t => .cont { r with path := p } (t ++ [ev id r])
   | .fail id st, r, t => .stop (.err (t ++ [ev id r]) st r)
+  | .raise src, r, t => .stop (.err t (raiseStatus src r) r)
+  | .answer src, r, t =>
+    match src with
+    | .empty => .stop (.done t (some (answerDefault r)))
+    | _ =>
+      match src.resolve r with
+      | some n => .stop (.done t (some n))
+      | none => .stop (.err t 500 r)
   | .sub rs hasErrs errs, r, t =>
     match specRoutes rs r t with
     | .cont r' t' => .cont r' t'
     | .stop (.done t' s) => .stop (.done t' s)
     | .stop (.err t' st r') =>
-      if hasErrs then specRoutes errs { r' with ctxErr := some st } t'
+      if hasErrs then specRoutes errs (withError st r') t'
       else .stop (.err t' st r')
 def specRoutes : List Route → Req → Trace → Res
   | [], r, t => .cont r t
@@ -74,12 +82,12 @@ end
 
 /-- the whole request, by the documented rules -/
 def eval (routes : List Route) (hasErrs : Bool) (errs : List Route) (req : Req) : Result :=
-  match specRoutes routes { req with groups := [], ctxErr := none } [] with
+  match specRoutes routes { req with groups := [], ctxErr := none, replStatus := none } [] with
   | .cont _ t => ⟨t, none⟩                      -- nobody answered: empty default response
   | .stop (.done t s) => ⟨t, s⟩
   | .stop (.err t st r') =>
     if hasErrs && !errs.isEmpty then
-      match specRoutes errs { r' with path := req.path, ctxErr := some st } t with
+      match specRoutes errs (withError st { r' with path := req.path }) t with
       | .cont r'' t2 => ⟨t2, some (writeStatus r''.ctxErr)⟩   -- error routes did not answer: error status
       | .stop (.done t2 s2) => ⟨t2, s2⟩
       | .stop (.err t2 _ _) => ⟨t2, some (writeStatus (some st))⟩
@@ -117,6 +125,8 @@ def hCanFail : Handler → Bool
   | .respond _ _ => false
   | .rewrite _ _ => false
   | .fail _ _ => true
+  | .raise _ => true
+  | .answer src => match src with | .empty => false | .lit _ => false | _ => true
   | .sub rs hasErrs errs => if hasErrs then rsCanFail errs else rsCanFail rs
 def rsCanFail : List Route → Bool
   | [] => false
@@ -134,6 +144,8 @@ def hOk : Handler → Bool → Bool
   | .respond _ _, _ => true
   | .rewrite _ _, _ => true
   | .fail _ _, _ => true
+  | .raise _, _ => true
+  | .answer _, _ => true
   | .sub rs hasErrs errs, ks => if hasErrs then ks && rsOk rs ks && rsOk errs ks else rsOk rs ks
 def rsOk : List Route → Bool → Bool
   | [], _ => true
